@@ -24,9 +24,9 @@ THEOREMS = ["Qentem.Props.C04." + t for t in [
     "evaluate_eq_tree", "evaluate_eq_tree_rat", "evaluate_as_coded_before_fix_differs",
     "remChk_spec", "no_trap", "no_value_iff", "cmp_logic_01", "truth_is_positive",
     "equality_rule_text", "equality_rule_numeric", "equality_rule_number_vs_text",
-    "equality_rule_vars_textual", "add_exact", "sub_exact", "mul_exact_nat", "cmp_exact", "scan_wf", "scan_then_evaluate", "scan_total", "scan_then_evaluate_total"]] + [
+    "equality_rule_vars_textual", "add_exact", "sub_exact", "mul_exact_nat", "cmp_exact", "scan_wf", "scan_then_evaluate", "scan_total", "scan_then_evaluate_total", "scan_print_items", "scan_print"]] + [
     "Qentem.Expr.parseTop_safe"]
-OPEN_STATEMENTS = ["Qentem.Props.C04.ScanPrint (scanner o printer = flatten: statement only, exercised by correspondence)",
+OPEN_STATEMENTS = ["Qentem.Props.C04.ScanPrint in general (proved as scan_print_items / scan_print for the canonical printer over unsigned numeric leaves, all 16 operators, parentheses at any depth; open: variable and text leaves, signed literals, other spacings, redundant parentheses - exercised by correspondence)",
                    "arith_exact for * with an Integer-kind factor and for ^ (+, -, Natural*Natural and the comparisons are proved exact; the Fraction oracle covers the rest on the real code)"]
 
 OPS = [("||", "Or"), ("&&", "And"), ("==", "Equal"), ("!=", "NotEqual"), (">=", "GreaterOrEqual"),
